@@ -41,6 +41,9 @@ CLAIMS = {
     "C19": dict(tech=TECH, ref="DESIGN.md section 3 C19 and section 7",
                 text="fragment: partition policy kernels. ReadMasterAssignment::retrieveMaster over a symbolic contiguous gid2host partition (every gid exactly one master < H, H<=4); getEdgeOwner of NoCommunication, GenericHVC, GenericCVC, GenericCVCColumnFlip (owner < H, grid row/column as documented); factorizeHosts (rows*cols == H, H<=16).",
                 note="The partitioner itself (NewGeneric.h / DistributedGraph.h: edges shipped over MPI, CSR construction from files, id maps, mirror lists) cannot be encoded and is not claimed; sqrt is a table of correctly rounded values for 0..16."),
+    "C11": dict(tech=TECH, ref="DESIGN.md section 3 C11 and section 7",
+                text="symbolic input graphs (every out-index shape with <=3 nodes and <=3 edges in the quick tier, 4 edges in the thorough tier; destinations, edge data and lookup keys symbolic; self loops, parallel edges, isolated and trailing edge-less nodes included) are built through the real FileGraph and handed to the real graph constructors on one modelled thread: LC_CSR_Graph (three construction paths), LC_CSR_CSC_Graph, LC_InOut_Graph, LC_Linear_Graph, LC_InlineEdge_Graph enumerate exactly the input in file order; transpose, sortAllEdgesByDst, sortEdgesByEdgeData, findEdge, findEdgeSortedByDst (incl. no access outside [0,numEdges)), local node ranges.",
+                note="The out-index is enumerated (56 shapes), not symbolic; do_all/on_each run their body once on thread 0 (Loops.h cut); LargeArray/mmap are zero-filled malloc blocks (page size scaled to 128 bytes for the layouts that round). Multi-thread construction, LC_Morph_Graph, LC_Adaptor_Graph, LC_CSR_Hypergraph, in-edge sorting are outside."),
     "C05": dict(tech=TECH_CONC, ref="DESIGN.md section 3 C05 and section 7",
                 text="the real wait() bodies of CountingBarrier, MCSBarrier, DisseminationBarrier (state built by the real constructors/reinit) run as step machines under a solver-chosen schedule: no thread returns from its k-th wait before every participant entered it, every thread returns (deadlock probe + step-bound assertion), reuse over 2-3 phases, reinit to a different participant count between regions, T=1.",
                 note="T=2 in the quick tier, T=3 and the plain-accesses-visible variant in the thorough tier; SC values only. TopoBarrier, SimpleBarrier (mutex/condvar) and PthreadBarrier are not yet encoded."),
@@ -57,6 +60,7 @@ CLAIMS = {
 
 NOT_YET = "check not built yet in this round (planned in DESIGN.md section 3); no claim is made"
 NA = {
+    "C10": "not applicable within reach: measured on the real MorphGraph (directed flavour, concrete operation kinds, 2-3 nodes, unwind 10): three mutations with a walk after each ran out of memory at 6 GB after 300 s; a single addMultiEdge plus two walks reached 14.4 GB after 137 s (small_vector / filter_iterator / InsertBag loops never get constant trip counts). DESIGN.md section 3 C10 fixed this fall-back in advance; no other technique is substituted (harness kept in harness/attic/C10_morph.cpp)",
     "C20": "whole main() programs (LLVM cl::opt parsing, file input, full runtime, printing): no entry point can be executed symbolically within any useful bound; bounded symbolic checking does not apply and no other technique is substituted",
 }
 
@@ -88,7 +92,7 @@ def main():
         "hooks": {
             "guard": "GALOIS_VERIF",
             "enable": "harness translation units are compiled with -DGALOIS_VERIF against the real headers/sources of /repo's working tree (no rebuild of /repo/_build is needed by the checks)",
-            "baseline_off_cmd": "cmake --build /repo/_build -j16 && ctest --test-dir /repo/_build -j8 --timeout 900",
+            "baseline_off_cmd": "cmake --build /repo/_build -j16 -- -k 0; ctest --test-dir /repo/_build -j8 --timeout 900",
             "source_commits": [],
             "add_only": True,
         },
